@@ -742,7 +742,13 @@ class NetCDF4(FileHandler):
                     if len(dims) == 0 and var[:] is np.ma.masked:
                         ds[path + var_name] = dims, np.nan, dict(var.__dict__)
                     else:
-                        ds[path + var_name] = dims, var[:], dict(var.__dict__)
+                        # netCDF4 returns masked arrays. If nothing is masked,
+                        # xarray must get the plain array, otherwise it
+                        # converts integers to floating point numbers:
+                        data = var[:]
+                        if not np.ma.is_masked(data):
+                            data = np.ma.getdata(data)
+                        ds[path + var_name] = dims, data, dict(var.__dict__)
         except RuntimeError:
             raise KeyError(f"Could not load the variable {path + var_name}!")
 
